@@ -398,6 +398,7 @@ def impl(case):
     for i, spec in enumerate(case["vectors"]):
         pool.append(Entry(vecgen.make_array(spec["kind"], spec["vals"]).copy().view(di.Vector), "vector", f"v{i}", f"vector{i}"))
     events = []
+    initial_ncols = [len(arrays_of(e.obj)) for e in pool]      # before any in-place step removes / adds a column
     for si, step in enumerate(case["steps"]):
         rng = random.Random(step["r"])
         cands = [e for e in pool if e.kind == step["on"]]
@@ -479,7 +480,7 @@ def impl(case):
                         e2.snap = snap(e2.obj)
             pool.append(entry)
         events.append(ev)
-    return {"events": events, "initial_ncols": [len(arrays_of(e.obj)) for e in pool[:len(case["frames"]) + len(case["vectors"])]]}
+    return {"events": events, "initial_ncols": initial_ncols}
 
 
 TABLE_NAME = {"filter_col": "filter", "filter_tracked": "filter", "filter_out_tracked": "filter_out", "filter_owncol": "filter", "slice_cols": "slice", "sort2": "sort", "modify_vector": "modify", "modify_tracked": "modify", "modify_array": "modify", "modify_list": "modify",
